@@ -454,6 +454,7 @@ class Storage(Machine):
                 for p in inputs:
                     argv += ["--input-file", p]
                 argv += ["--storage-output-directory", host.path(out_dir), "--storage-address", self.num(op["addr"], (op["i"], "sa"))]
+                argv = self.drop_defaults(argv, {"--storage-address": 0x0E1ED000}, op["i"])
                 if kpath:
                     argv += ["--config-file", kpath]
                 return host.cli(argv, kind="image_boot", faults=fl)
